@@ -55,6 +55,42 @@ def implicit_h(atom, neighbours):
     return None
 
 
+def implicit_h_all(atom, neighbours):
+    """every hydrogen count for which some rule matches (a reader may select a non-first state from a bracket atom)"""
+    if atom.atomic_number == 1:
+        return {0}
+    out = set()
+    s = sum(o for o, _ in neighbours)
+    have = Counter(neighbours)
+    charge, radical = atom.charge, atom.is_radical
+    common = atom._common_valences
+    if charge == 0 and not radical:
+        v0 = common[0]
+        if v0:
+            if s <= v0:
+                out.add(v0 - s)
+            if s in common[1:]:
+                out.add(0)
+        elif s in common:
+            out.add(0)
+    for c, r, imp, env in atom._valences_exceptions:
+        if c != charge or r != radical:
+            continue
+        explicit = sum(o for o, _ in env)
+        if imp:
+            if not explicit <= s <= explicit + imp:
+                continue
+            h = explicit + imp - s
+        else:
+            if s != explicit:
+                continue
+            h = 0
+        need = Counter((o, _z(e)) for o, e in env)
+        if all(have[k] >= v for k, v in need.items()):
+            out.add(h)
+    return out
+
+
 def atom_neighbours(mol, n):
     return [(b.order, mol.atom(k).atomic_number) for k, b in mol._bonds[n].items() if b.order != 8]
 
